@@ -2,7 +2,7 @@
 from . import core, exprio, dslgen
 from .core import Finding, sx
 
-THEOREMS = []
+THEOREMS = ["Cspuz.C01.C01_translation_faithful", "Cspuz.C01.C01_z3_backend_correct", "Cspuz.C01.C01_find_answer_exact", "Cspuz.C01.C01_session"]
 
 
 def _classify(cs_text):
@@ -54,8 +54,137 @@ def _one(rng, incremental=False):
     return None
 
 
+def _asg_text(s, asg):
+    from cspuz.expr import BoolVar
+    return [asg[f"b{v.id}"] if isinstance(v, BoolVar) else asg[f"i{v.id}"] for v in s.variables]
+
+
+def _rand_asg(rng, s):
+    from cspuz.expr import BoolVar
+    a = {}
+    for v in s.variables:
+        if isinstance(v, BoolVar):
+            a[f"b{v.id}"] = rng.random() < 0.5
+        else:
+            a[f"i{v.id}"] = rng.randint(v.lo - 1, v.hi + 1)
+    return a
+
+
+def _z3_value(term, zvars, s, asg):
+    """Value of what the real _convert_expr returned, under asg (Python constant or z3 term)."""
+    import z3
+    from cspuz.expr import BoolVar
+    if isinstance(term, bool):
+        return term
+    if isinstance(term, int):
+        return term
+    subst = []
+    for v in s.variables:
+        if isinstance(v, BoolVar):
+            subst.append((zvars[v.id], z3.BoolVal(asg[f"b{v.id}"])))
+        else:
+            subst.append((zvars[v.id], z3.IntVal(asg[f"i{v.id}"])))
+    r = z3.simplify(z3.substitute(term, *subst))
+    if z3.is_true(r):
+        return True
+    if z3.is_false(r):
+        return False
+    return r.as_long()
+
+
 def correspond(ctx):
-    ctx.extra["rule"] = "see DESIGN.md C01"
+    import z3
+    from cspuz.backend import z3 as zb
+    from cspuz.expr import BoolVar
+    ctx.extra["rule"] = ("random sessions built THROUGH THE REAL DSL (all operators, reflected forms, helper constructors with nested "
+                         "lists, Python literals, empty / constant-only forms, depth<=3, <=3 bools and <=3 ints with small domains); "
+                         "per constraint: the real _convert_expr result evaluated by z3 under random assignments vs the Lean model's "
+                         "convertExpr/zeval vs the Lean reference semantics eval; per session: real find_answer('z3') verdict and sol vs "
+                         "the Lean model count by enumeration; non-trivial = at least one operator node, distinct by program text")
+    drv = core.Driver()
+    nsess = ctx.n(500, 6000)
+    lines, meta = [], []
+    for k in range(nsess):
+        try:
+            s, bools, ints = dslgen.random_session(ctx.rng)
+        except Exception as e:
+            ctx.count("gen-error:" + core.err_name(e))
+            continue
+        decls = "(" + " ".join(exprio.pdecl(v) for v in s.variables) + ")"
+        cs = [exprio.pexpr(c) for c in s.constraints]
+        # (a) per-constraint translation semantics
+        zb.Z3Backend(s.variables)  # makes sure cspuz.backend.z3.z3 is loaded
+        be = zb.Z3Backend(s.variables)
+        for c, ct in zip(s.constraints, cs):
+            try:
+                term = zb._convert_expr(c, be.variables_dict)
+                terr = None
+            except Exception as e:
+                term, terr = None, core.err_name(e)
+            for _ in range(2):
+                asg = _rand_asg(ctx.rng, s)
+                at = sx(_asg_text(s, asg))
+                if terr is None:
+                    try:
+                        val = _z3_value(term, be.variables_dict, s, asg)
+                        val = sx(val)
+                    except Exception as e:
+                        val = "(err " + core.err_name(e) + ")"
+                else:
+                    val = "(err " + terr + ")"
+                try:
+                    ref = exprio.ev(core.parse_sx(ct), asg)
+                    ref = sx(ref)
+                except exprio.IllTyped:
+                    ref = "N"
+                lines.append(f"(zval {decls} {ct} {at})")
+                meta.append(("zval", ct, at, val))
+                lines.append(f"(eval {decls} {ct} {at})")
+                meta.append(("eval", ct, at, ref))
+            lines.append(f"(convert {ct})")
+            meta.append(("kind", ct, "", "py" if isinstance(term, (bool, int)) else ("z3" if terr is None else "err")))
+        # (b) end to end
+        try:
+            r = s.find_answer("z3")
+            sol = None
+            if r:
+                sol = {(f"b{v.id}" if isinstance(v, BoolVar) else f"i{v.id}"): v.sol for v in s.variables}
+            out = ("ok", r, sol)
+        except Exception as e:
+            out = ("err", core.err_name(e), None)
+        lines.append(f"(models {decls} " + " ".join(cs) + ")")
+        meta.append(("models", cs, decls, out, s))
+        ctx.case({"decls": decls, "constraints": cs[:3]}, " ".join(cs) if any("(" in c for c in cs) else None)
+    outs = drv.run(lines)
+    for m, out in zip(meta, outs):
+        if m[0] in ("zval", "eval"):
+            ctx.count(m[0])
+            if out != m[3]:
+                ctx.disagree("translation-semantics" if m[0] == "zval" else "reference-eval", constraint=m[1], assignment=m[2],
+                             real=m[3], model=out)
+        elif m[0] == "kind":
+            t = core.parse_sx(out)
+            k = t[0] if isinstance(t, list) else "?"
+            ctx.count("convert:" + m[3])
+            if k != m[3]:
+                ctx.disagree("translation-kind", constraint=m[1], real=m[3], model=out[:200])
+        else:
+            t = core.parse_sx(out)
+            cnt = int(t[0])
+            res = m[3]
+            ctx.count("find_answer:" + (str(res[1])))
+            if res[0] == "err":
+                ctx.disagree("find_answer-exception", constraints=m[1], decls=m[2], exception=res[1], lean_models=cnt)
+            elif res[1] != (cnt > 0):
+                ctx.disagree("find_answer-verdict", constraints=m[1], decls=m[2], real=res[1], lean_models=cnt)
+            elif res[1]:
+                s = m[4]
+                asg = res[2]
+                bad = [c for c in m[1] if exprio.ev(core.parse_sx(c), asg) is not True]
+                from cspuz.expr import IntVar
+                oob = [v.id for v in s.variables if isinstance(v, IntVar) and not (v.lo <= asg[f"i{v.id}"] <= v.hi)]
+                if bad or oob:
+                    ctx.disagree("find_answer-sol-not-model", constraints=m[1], decls=m[2], sol=asg, violated=bad, out_of_bounds=oob)
 
 
 def search(ctx, why):
@@ -73,4 +202,17 @@ def search(ctx, why):
 
 
 def replay(ctx, data):
+    from cspuz.expr import BoolVar
+    s = exprio.build_session(data["decls"], data["constraints"])
+    models = dslgen.brute_models(s)
+    try:
+        r = s.find_answer("z3")
+    except Exception as e:
+        return Finding("find_answer:replay", f"raised {core.err_name(e)}", data)
+    if r != (len(models) > 0):
+        return Finding("find_answer:replay", f"returned {r} with {len(models)} models", data)
+    if r:
+        asg = {(f"b{v.id}" if isinstance(v, BoolVar) else f"i{v.id}"): v.sol for v in s.variables}
+        if asg not in models:
+            return Finding("find_answer:replay", f"sol {asg} is not a model", data)
     return None
